@@ -21,12 +21,13 @@ import (
 
 type c13Case struct {
 	Template string `json:"template"`
-	// Mode: "full" | "prune-node" | "prune-type" | "remove" | "visitor" | "package"
+	// Mode: "full" | "prune-node" | "prune-pair" | "prune-type" | "remove" | "remove-all" | "root" | "visitor" | "package"
 	Mode string `json:"mode"`
 	// Index: node index (pre-order of the reference traversal) for prune-node / remove
-	Index int    `json:"index"`
-	Field string `json:"field,omitempty"`
-	Type  string `json:"type,omitempty"`
+	Index  int    `json:"index"`
+	Index2 int    `json:"index2,omitempty"` // second pruned node (prune-pair)
+	Field  string `json:"field,omitempty"`
+	Type   string `json:"type,omitempty"`
 }
 
 var nodeIface = reflect.TypeOf((*dst.Node)(nil)).Elem()
@@ -153,7 +154,7 @@ func init() {
 	core.Register(&core.Prop{
 		ID:    "C13",
 		Level: "model_checking",
-		Rule: "for every corpus tree: Inspect/Walk visit logs under every single-node pruning predicate (one run per visited node), every node-type predicate, every removal of one optional child, " +
+		Rule: "for every corpus tree: Inspect/Walk visit logs under every single-node pruning predicate (one run per visited node; thorough: every pair of nodes), every node-type predicate, every removal of one optional child and of all at once, the traversal rooted at every inner node instead of the file, " +
 			"a visitor that hands a different visitor to each subtree, and a 3-file Package; oracle = reflection-derived child lists (exactly once, parent first, nil after children, pruned subtrees skipped) " +
 			"and go/ast.Inspect of the original ast mapped through the decorator's node map; state = (tree, predicate); non-trivial = predicate that prunes a node with children",
 		Assumptions: []string{"go/ast.Inspect of this toolchain is the reference traversal order", "struct field order of dst node types equals source order of children (checked against go/ast on every tree)"},
@@ -191,7 +192,7 @@ func runC13(ctx *core.Ctx, unit int) {
 	var ref []visitRec
 	refLog(f, func(dst.Node) bool { return false }, &ref)
 	run := func(cs c13Case, nontrivial bool) {
-		ctx.State(fmt.Sprintf("%s|%s|%d|%s|%s", t.Name, cs.Mode, cs.Index, cs.Field, cs.Type), nontrivial)
+		ctx.State(fmt.Sprintf("%s|%s|%d|%d|%s|%s", t.Name, cs.Mode, cs.Index, cs.Index2, cs.Field, cs.Type), nontrivial)
 		ctx.Eval(cs, c13Check(cs, ctx))
 	}
 	run(c13Case{Template: t.Name, Mode: "full"}, true)
@@ -211,7 +212,24 @@ func runC13(ctx *core.Ctx, unit int) {
 				run(c13Case{Template: t.Name, Mode: "remove", Index: idx, Field: fld}, true)
 			}
 		}
+		if len(dstChildren(r.n)) > 0 {
+			// traversal rooted at this node instead of the file
+			run(c13Case{Template: t.Name, Mode: "root", Index: idx}, true)
+		}
 		idx++
+	}
+	run(c13Case{Template: t.Name, Mode: "remove-all"}, true)
+	if ctx.Thorough() {
+		// every pair of pruned nodes (the second may lie inside the first, after it, or be a sibling)
+		for i := 0; i < idx; i++ {
+			for j := i + 1; j < idx; j++ {
+				if ctx.Expired() {
+					ctx.Cut("prune pairs")
+					return
+				}
+				run(c13Case{Template: t.Name, Mode: "prune-pair", Index: i, Index2: j}, true)
+			}
+		}
 	}
 	for tn := range types {
 		run(c13Case{Template: t.Name, Mode: "prune-type", Type: tn}, true)
@@ -260,13 +278,33 @@ func c13Check(cs c13Case, ctx *core.Ctx) core.Outcome {
 	case "prune-type":
 		prune = func(n dst.Node) bool { return reflect.TypeOf(n).Elem().Name() == cs.Type }
 		astPrune = func(n ast.Node) bool { return reflect.TypeOf(n).Elem().Name() == cs.Type }
+	case "prune-pair":
+		t1, t2 := nodes[cs.Index], nodes[cs.Index2]
+		prune = func(n dst.Node) bool { return n == t1 || n == t2 }
+		astPrune = func(n ast.Node) bool { return dec.Dst.Nodes[n] == t1 || dec.Dst.Nodes[n] == t2 }
 	case "remove":
 		target := nodes[cs.Index]
 		fv := reflect.ValueOf(target).Elem().FieldByName(cs.Field)
 		fv.Set(reflect.Zero(fv.Type()))
+	case "remove-all":
+		for _, n := range nodes {
+			for _, fld := range c13Optional[reflect.TypeOf(n).Elem().Name()] {
+				fv := reflect.ValueOf(n).Elem().FieldByName(fld)
+				fv.Set(reflect.Zero(fv.Type()))
+			}
+		}
+	}
+	var root dst.Node = f
+	var astRoot ast.Node = af
+	if cs.Mode == "root" {
+		root = nodes[cs.Index]
+		astRoot = dec.Ast.Nodes[root]
+		if astRoot == nil {
+			return fail("root-unmapped", "node %d has no ast counterpart", cs.Index)
+		}
 	}
 	var want []visitRec
-	refLog(f, prune, &want)
+	refLog(root, prune, &want)
 	if ctx != nil {
 		ctx.R.Transitions += int64(len(want))
 	}
@@ -274,8 +312,11 @@ func c13Check(cs c13Case, ctx *core.Ctx) core.Outcome {
 	if cs.Mode == "visitor" {
 		return c13Visitor(f, want, fail)
 	}
-	got, pan := inspectLog(f, prune)
+	got, pan := inspectLog(root, prune)
 	if pan != "" {
+		if cs.Mode == "remove-all" {
+			return fail("nil-optional-children", "Inspect panicked with every optional child removed: %s", pan)
+		}
 		if cs.Mode == "remove" {
 			return fail("nil-optional-child:"+reflect.TypeOf(nodes[cs.Index]).Elem().Name()+"."+cs.Field, "Inspect panicked: %s", pan)
 		}
@@ -286,13 +327,16 @@ func c13Check(cs c13Case, ctx *core.Ctx) core.Outcome {
 		if cs.Mode == "remove" {
 			key = "nil-optional-child:" + reflect.TypeOf(nodes[cs.Index]).Elem().Name() + "." + cs.Field
 		}
+		if cs.Mode == "remove-all" {
+			key = "nil-optional-children"
+		}
 		return fail(key, "visit log differs from the reflection-derived traversal at position %d\nexpected:\n%sgot:\n%s", i, logString(want, i), logString(got, i))
 	}
-	if cs.Mode != "remove" {
+	if cs.Mode != "remove" && cs.Mode != "remove-all" {
 		// go/ast.Inspect of the twin, comments excluded, mapped through the node map
 		var alog []visitRec
 		var stack []bool // whether the node was logged
-		ast.Inspect(af, func(n ast.Node) bool {
+		ast.Inspect(astRoot, func(n ast.Node) bool {
 			if n == nil {
 				logged := stack[len(stack)-1]
 				stack = stack[:len(stack)-1]
